@@ -1,6 +1,7 @@
 import Verif.Proofs.C09HtmlComment
 import Verif.Proofs.HtmlAttr
 import Verif.Model.Html
+import Verif.Proofs.C09HtmlRelex
 /-!
 # C09 / HTML — the comments that the model of html.go writes are single comment tokens
 -/
@@ -72,6 +73,7 @@ def condEnd (data : List Char) : Nat := data.length - 12
 theorem commentOut_cases (o : Opts) (ext : Ext) (data text out : List Char) (h : commentOut o ext data text = .ok out) :
     out = [] ∨ out = data ∨
     ∃ inner, callExt ext "html" ((data.take (condEnd data)).drop (condBegin data)) = .ok inner ∧
+      (bytesContain (s "-->") inner || bytesContain (s "--!>") inner) = false ∧
       out = data.take (condBegin data) ++ inner ++ data.drop (condEnd data) := by
   unfold commentOut at h
   simp only [bind, Except.bind] at h
@@ -80,7 +82,7 @@ theorem commentOut_cases (o : Opts) (ext : Ext) (data text out : List Char) (h :
     | (right; left; exact (ok_inj' h).symm)
     | (left; exact (ok_inj' h).symm)
     | (cases h; done)
-    | (right; right; rename_i inner hin; exact ⟨inner, hin, (ok_inj' h).symm⟩)
+    | (right; right; rename_i inner hin hnc; exact ⟨inner, hin, by simpa using hnc, (ok_inj' h).symm⟩)
 
 /-- the recursion branch is taken only after html.go's own tests -/
 theorem commentOut_rec (o : Opts) (ext : Ext) (data text out : List Char) (h : commentOut o ext data text = .ok out)
@@ -168,8 +170,8 @@ theorem cond_split (P mid inner : List Char) (hP : '>' ∉ P) :
     rw [this]; exact List.drop_left' rfl
 
 /-- **a conditional comment whose inside was minified**: `<!--[P>` + inner + `<![endif]-->`.  Lexer contract on the head:
-    `[P>` holds no `-->` / `--!>`; CONTRACT on the recursive result `inner`: it holds no `-->` / `--!>` (violated by the
-    real code: K-C09-HTML-3).  Then the bytes are one comment token with the data `[P>` + inner + `<![endif]`. -/
+    `[P>` holds no `-->` / `--!>`; the recursive result `inner` holds no `-->` / `--!>` (html.go checks this since 3c66722
+    and writes the original comment otherwise).  Then the bytes are one comment token with the data `[P>` + inner + `<![endif]`. -/
 theorem html_cond_comment_closed (P inner more : List Char)
     (hcP : hasClose ('[' :: P ++ ['>']) = false) (hin : hasClose inner = false)
     (m : M) (hs : m.s = .text) (hm : m.mode = .data) :
@@ -252,26 +254,18 @@ def html_comment_closed_full : Prop :=
     hasClose text = false → commentOut o ext data text = .ok out → out ≠ [] →
     ∃ body, runO {} out = [.comment body]
 
-/-- **html_comment_closed_partial.**  For every option set, external-result table and comment token of the lexer's shape
-    (`<!--` text `-->` / `--!>`, no closer inside the text): whatever the model writes for it (`commentOut`: nothing;
-    the bytes; or, for `<!--[P>mid<![endif]-->` under KeepSpecialComments, head + recursively minified inside + tail) is
-    exactly ONE comment token of the HTML standard, after which the tokenizer is in the data state again — under the
-    GUARD that the text does not start with `>` / `->` (K-C09-HTML-1) and the CONTRACT that a recursive result holds no
-    `-->` / `--!>` (K-C09-HTML-3 shows the real code violates it).  The shape `<!--[P>mid<![endif]-->` with `>` not in `P`
-    that the recursion branch needs follows from html.go's own tests (`HasPrefix "<!--[if "`, `HasSuffix "<![endif]-->"`,
-    `begin < end`): `cond_shape`. -/
-theorem html_comment_closed_partial (o : Opts) (ext : Ext) (data text out cl more : List Char) (hcl : Closer cl)
+/-- the same with one comment body for all tokenizer contexts -/
+theorem html_comment_closed_uniform (o : Opts) (ext : Ext) (data text out cl : List Char) (hcl : Closer cl)
     (hd : data = opener ++ text ++ cl) (hc : hasClose text = false)
     (h : commentOut o ext data text = .ok out) (hne : out ≠ [])
-    (ha : abruptStart text = false)
-    (hext : ∀ inp res, callExt ext "html" inp = .ok res → hasClose res = false)
-    (m : M) (hs : m.s = .text) (hm : m.mode = .data) :
-    ∃ body, runO m (out ++ more) = [.comment body] ++ runO m more ∧ runS m out = m := by
-  rcases commentOut_cases o ext data text out h with e | e | ⟨inner, hin, e⟩
+    (ha : abruptStart text = false) :
+    ∃ body, ∀ (m : M) (more : List Char), m.s = .text → m.mode = .data →
+      runO m (out ++ more) = [.comment body] ++ runO m more ∧ runS m out = m := by
+  rcases commentOut_cases o ext data text out h with e | e | ⟨inner, hin, hnc, e⟩
   · exact absurd e hne
-  · subst e; exact ⟨text, html_comment_kept_closed _ text cl more hcl hd hc ha m hs hm⟩
+  · subst e; exact ⟨text, fun m more hs hm => html_comment_kept_closed _ text cl more hcl hd hc ha m hs hm⟩
   · by_cases hod : out = data
-    · rw [hod]; exact ⟨text, html_comment_kept_closed _ text cl more hcl hd hc ha m hs hm⟩
+    · rw [hod]; exact ⟨text, fun m more hs hm => html_comment_kept_closed _ text cl more hcl hd hc ha m hs hm⟩
     · obtain ⟨hp, hs', hlt⟩ := commentOut_rec o ext data text out h hne hod
       obtain ⟨P, mid, hP, ht, hcl'⟩ := cond_shape data text cl hcl hd hp hs' hlt
       subst hcl'
@@ -285,7 +279,26 @@ theorem html_comment_closed_partial (o : Opts) (ext : Ext) (data text out cl mor
         have : text = ('[' :: P ++ ['>']) ++ (mid ++ endifTail) := by rw [ht]; simp [List.append_assoc]
         rw [this] at hc
         exact hasClose_prefix _ _ hc
-      exact ⟨_, html_cond_comment_closed P inner more hcP (hext _ _ hin) m hs hm⟩
+      exact ⟨_, fun m more hs hm => html_cond_comment_closed P inner more hcP
+        (Verif.Proofs.C09HtmlRelex.hasClose_of_bytesContain inner hnc) m hs hm⟩
+
+/-- **html_comment_closed_partial.**  For every option set, external-result table and comment token of the lexer's shape
+    (`<!--` text `-->` / `--!>`, no closer inside the text): whatever the model writes for it (`commentOut`: nothing;
+    the bytes; or, for `<!--[P>mid<![endif]-->` under KeepSpecialComments, head + recursively minified inside + tail) is
+    exactly ONE comment token of the HTML standard, after which the tokenizer is in the data state again — under the
+    GUARD that the text does not start with `>` / `->` (K-C09-HTML-1).  No hypothesis about the recursive result is
+    needed any more: since 3c66722 html.go writes the original comment when the minified inside holds `-->` / `--!>`
+    (K-C09-HTML-3 fixed).  The shape `<!--[P>mid<![endif]-->` with `>` not in `P`
+    that the recursion branch needs follows from html.go's own tests (`HasPrefix "<!--[if "`, `HasSuffix "<![endif]-->"`,
+    `begin < end`): `cond_shape`. -/
+theorem html_comment_closed_partial (o : Opts) (ext : Ext) (data text out cl more : List Char) (hcl : Closer cl)
+    (hd : data = opener ++ text ++ cl) (hc : hasClose text = false)
+    (h : commentOut o ext data text = .ok out) (hne : out ≠ [])
+    (ha : abruptStart text = false)
+    (m : M) (hs : m.s = .text) (hm : m.mode = .data) :
+    ∃ body, runO m (out ++ more) = [.comment body] ++ runO m more ∧ runS m out = m := by
+  obtain ⟨body, hb⟩ := html_comment_closed_uniform o ext data text out cl hcl hd hc h hne ha
+  exact ⟨body, hb m more hs hm⟩
 
 /-- **html_comment_closed_counterexample** (K-C09-HTML-1): the lexer's token `<!-->x-->` (text `>x`) is written verbatim
     under KeepComments and is NOT one comment token: the standard reads `<!-->` as an empty comment and `x-->` as text. -/
